@@ -305,6 +305,9 @@ def run(ck):
                 kept.append((c, r))
             except pg.Unsupported as u:
                 counts["not-in-model:" + str(u)[:40]] += 1
+            except Exception as ex:  # noqa - a record the model's literal language cannot name (an unknown enum value, ...):
+                # the direct oracles above have judged the run; the model comparison of this case is reported as not made
+                ck.corr_problem("a traced run could not be written as a model case (%s)" % type(ex).__name__, repr(ex)[:300])
     runs += unusual_value_oracle(ck)
     runs += scripted_clock_oracle(ck)
     bad, errs = tl.evaluate("C07", texts)
